@@ -562,6 +562,7 @@ func VerifC03_UnsafeQueryAfterScenario() {
 	vreach("end")
 }
 func VerifC03T_TypedQueryAfterScenario() {
+	vNoMul = true
 	W := vShapeFor(1)
 	q := W.arbQuerySpec(true)
 	vTypedQuery2RelMid(W, q, false, vPick("perquery", 2) == 1, "walk", func() { W.cacheScenario(vPick("scenario", 9)) })
@@ -818,6 +819,6 @@ func vFilterLifecycle(steps int) {
 }
 
 func VerifC05_FilterLifecycle()  { vFilterLifecycle(3) }
-func VerifC05T_FilterLifecycle() { vFilterLifecycle(4) }
+func VerifC05T_FilterLifecycle() { vNoMul = true; vFilterLifecycle(4) }
 func VerifC03_FilterLifecycle()  { vFilterLifecycle(2) }
 func VerifC14_FilterLifecycle()  { vFilterLifecycle(2) }
